@@ -6,6 +6,8 @@ def config(T):
         "C01": dict(pkg="c01", tests=[T("TestPinned"), T("TestExec", 2400, 80000, sq=4, st=16, race=True), T("TestExecUnionEdge", 800, 16000, sq=2, st=8)]),
         "C02": dict(pkg="c02", tests=[T("TestConverge", 800, 32000, sq=8, st=16, race=True)]),
         "C03": dict(pkg="c03", tests=[T("TestPinned"), T("TestRoundTrip", 12000, 400000, sq=4, st=16)]),
+        "C06": dict(pkg="c06", race_quick=True, tests=[T("TestKnownTypename"), T("TestTransparent", 160, 8000, sq=8, st=16), T("TestDirectivesGateway", 80, 4000, sq=4, st=8),
+                                                       T("TestConcurrentRefresh", 30, 600, sq=1, st=4, race=True, timeout_q=900)]),
         "C07": dict(pkg="c07", tests=[T("TestLiveSQL", 800, 32000, sq=8, st=16, race=True)]),
         "C08": dict(pkg="c08", tests=[T("TestCache", 2400, 96000, sq=8, st=16, race=True)]),
         "C10": dict(pkg="c10", tests=[T("TestBatchTransparent", 1600, 48000, sq=8, st=16, race=True)]),
